@@ -84,6 +84,7 @@ inductive CallerOut where
   | value (v : Nat)
   | raised (id : Nat)
   | indexError
+  | cancelled               -- `CancelledError` delivered to the caller
 deriving Repr, DecidableEq
 
 /-- `return await self._function(*args, **kwargs)` -/
@@ -95,5 +96,72 @@ def callerOutcome : Res → FnOut → CallerOut
 /-- start instants of the calls that did start -/
 def starts (rs : List Res) : List Nat :=
   rs.filterMap fun r => match r with | .started t => some t | .indexError => none
+
+/-! ## cancelled callers
+
+A caller's task may be cancelled (`task.cancel()`, `wait_for`, the timeout wrapper) at any instant.
+What that does depends on where the call is at that moment: still queued on the lock (it leaves the
+queue, nothing else changes), sleeping inside the throttle as lock holder (the `async with` releases
+the lock at that instant; the deque keeps what the cleanup left, nothing is appended, the function
+never starts), or already running the wrapped function (the schedule is not affected). -/
+
+/-- a cancellation request; `before` = it is delivered before the timers due at `time` fire (the
+other tie order: after everything due at `time` has happened) -/
+structure Cancel where
+  time : Nat
+  before : Bool
+deriving Repr, DecidableEq
+
+/-- the cancellation is delivered before the event due at instant `x` happens -/
+def preempts (c : Option Cancel) (x : Nat) : Bool :=
+  match c with
+  | none => false
+  | some c => if c.before then decide (c.time ≤ x) else decide (c.time < x)
+
+def cancelTime : Option Cancel → Nat
+  | some c => c.time
+  | none => 0
+
+inductive ResC where
+  | ran (r : Res)             -- went through the critical section (started, or died there)
+  | cancelledQueued           -- cancelled while waiting for the lock
+  | cancelledSleeping         -- cancelled while holding the lock and sleeping for its turn
+deriving Repr, DecidableEq
+
+/-- one call arriving at `arrival` whose caller is (possibly) cancelled by `c` -/
+def processC (limit P : Nat) (s : St) (arrival : Nat) (c : Option Cancel) : St × ResC :=
+  let now := max arrival s.lockFree
+  if preempts c now then (s, .cancelledQueued)          -- never got the lock: nothing changes
+  else
+    let es := cleanup P now s.entries
+    if limit ≤ es.length then
+      match es with
+      | e :: _ =>
+        let t := max now (e + P)
+        if preempts c t then
+          ({ entries := es, lockFree := max now (cancelTime c) }, .cancelledSleeping)
+        else ({ entries := es ++ [t], lockFree := t }, .ran (.started t))
+      | [] => ({ entries := es, lockFree := now }, .ran .indexError)
+    else
+      ({ entries := es ++ [now], lockFree := now }, .ran (.started now))
+
+def runC (limit P : Nat) : St → List (Nat × Option Cancel) → List ResC
+  | _, [] => []
+  | s, (a, c) :: rest => let r := processC limit P s a c; r.2 :: runC limit P r.1 rest
+
+/-- start instants of the calls that did start -/
+def startsC (rs : List ResC) : List Nat :=
+  rs.filterMap fun r => match r with | .ran (.started t) => some t | _ => none
+
+/-- what the caller of a call with function duration `dur` and function outcome `o` gets, and when
+(`none` = the wrapper died before anything was awaited) -/
+def callerOutcomeC (r : ResC) (dur : Nat) (o : FnOut) (c : Option Cancel) : CallerOut × Option Nat :=
+  match r with
+  | .ran (.started t) =>
+    if preempts c (t + dur) then (.cancelled, some (cancelTime c))   -- cancelled while the function runs
+    else (callerOutcome (.started t) o, some (t + dur))
+  | .ran .indexError => (.indexError, none)
+  | .cancelledQueued => (.cancelled, some (cancelTime c))
+  | .cancelledSleeping => (.cancelled, some (cancelTime c))
 
 end Haiway.Throttle
